@@ -186,14 +186,19 @@ static void run_purity(int L, int shard, int nsh)
     std::vector<int> sqs;
     for (int s = 8; s < 56; ++s) sqs.push_back(s);
     uint64_t tried = 0;
+    auto usable = [&](const Structure& st) {
+        for (int ps = 0; ps < 3; ++ps)
+            for (int stm = 0; stm < 2; ++stm)
+                if (make_fen(st, ps, stm).empty()) return false;
+        return true;
+    };
     auto consider = [&](const Structure& st) {
         ++tried;
         uint64_t slot = st.key & (PAWN_SLOTS - 1);
         if (slot == 0 && st.key != 0 && !haveA0)
         {
             // non-zero pawn score required so that a leak is visible
-            std::string f = make_fen(st, 0, 0);
-            if (!f.empty())
+            if (usable(st))
             {
                 A0 = st;
                 haveA0 = true;
@@ -202,13 +207,13 @@ static void run_purity(int L, int shard, int nsh)
         if (!havePair && slot != 0 && structs.size() < 200000)
         {
             auto it = slot2idx.find(slot);
-            if (it != slot2idx.end() && structs[it->second].key != st.key && !make_fen(st, 0, 0).empty() && !make_fen(structs[it->second], 0, 0).empty())
+            if (it != slot2idx.end() && structs[it->second].key != st.key && usable(st))
             {
                 A1 = structs[it->second];
                 A2 = st;
                 havePair = true;
             }
-            else if (it == slot2idx.end() && !make_fen(st, 0, 0).empty())
+            else if (it == slot2idx.end() && usable(st))
             {
                 slot2idx[slot] = structs.size();
                 structs.push_back(st);
